@@ -13,11 +13,11 @@ EXPLANATION = (
     "from_digests([digest(subject)] ++ map(digest, sorted assertions))); C01.3: DigestProvider for Envelope returns, per "
     "variant arm, that arm's own stored/declared digest and the match is exhaustive; C01.4: no mutation path (no projected "
     "assignment through Envelope/EnvelopeCase/Assertion, no Rc/Arc get_mut/make_mut/try_unwrap, no interior mutability in the "
-    "type tree, no &mut self method); C01.5: every decoder accept value is a constructor call over the decoded children (node = constructor(decode(elements[0]), decode(elements[1..]))). Does not decide SHA-256, dCBOR serialisation or Digest::from_digests' concatenation.")
+    "type tree, no &mut self method); C01.5: every decoder accept value is a constructor call over the decoded children (node = constructor(decode(elements[0]), decode(elements[1..]))); C01.6 route independence: a node's digest is a function of the set of its assertion digests, so the add path refuses an element whose digest is present and the remove path takes out exactly the element with the target's digest (the C04.3/C04.5 instances re-evaluated here). The digest list and the stored vector are compared in sequence normal form (vec!+push loop, extend(map), once().chain().map().collect() are the same sequence); a comparator may be a closure or a crate function. Does not decide SHA-256, dCBOR serialisation or Digest::from_digests' concatenation.")
 TRUSTED = ['Digest::from_image = SHA-256 of its argument', 'Digest::from_digests hashes the concatenation of the slice in order',
            'CBOR::to_cbor_data is the dCBOR serialisation']
 ASSUMPTIONS = ['dependencies behave as their documented summaries']
-FLOORS = {'C01.1': 8, 'C01.2': 5, 'C01.3': 5, 'C01.4': 4, 'C01.5': 6}
+FLOORS = {'C01.1': 8, 'C01.2': 5, 'C01.3': 5, 'C01.4': 4, 'C01.5': 6, 'C01.6': 5}
 
 
 def comparator_table(ctx, F, closure_path):
@@ -29,7 +29,24 @@ def comparator_table(ctx, F, closure_path):
     return tb.return_term()
 
 
-def check_node(ctx, b, tb, agg, site):
+def comparator_value(ctx, F, callable_):
+    """Result term of a comparator / key function given as a closure or as a function item, over the element parameters
+    ('param', 2) and ('param', 3) (closure numbering)."""
+    if not (isinstance(callable_, tuple) and callable_):
+        return None
+    if callable_[0] == 'closure':
+        return comparator_table(ctx, F, callable_[1])
+    if callable_[0] == 'fnref':
+        c = CALLEES.get(callable_[1])
+        fb = F.by_hash.get(c.best_hash) if c is not None else None
+        if fb is None or fb.dk == 'Closure':
+            return None
+        rt = return_term_of(F, fb)
+        return subst(rt, {('param', 1): ('param', 2), ('param', 2): ('param', 3)})
+    return None
+
+
+def check_node(ctx, b, tb, agg, site, bi=None):
     fields = dict(zip(agg[4], agg[3]))
     subj, asrt, dig = fields.get('subject'), fields.get('assertions'), fields.get('digest')
     inst = 'C01.2/node'
@@ -41,7 +58,7 @@ def check_node(ctx, b, tb, agg, site):
         key_sort = a is not None
     if a is None and strip_sites(asrt)[0] == 'param':
         # a constructor that trusts its caller's order: the obligation moves to every call site (universal over sites)
-        if not check_digest_formula(ctx, inst, site, subj, asrt, dig):
+        if not check_digest_formula(ctx, inst, site, subj, asrt, dig, use=(b, bi) if bi is not None else None):
             return
         k = strip_sites(asrt)[1]
         callers = ctx.F.callers().get(b.hash, [])
@@ -74,10 +91,10 @@ def check_node(ctx, b, tb, agg, site):
         ctx.fail(inst, site, 'assertion vector mutated before the sort by something other than the sort: %s' % fmt(base), key=inst + '|premut')
         return
     clo = a[1]
-    if not (isinstance(clo, tuple) and clo[0] == 'closure'):
-        ctx.fail(inst, site, 'sort comparator is not a closure: %s' % fmt(clo), key=inst + '|cmp')
+    rt = comparator_value(ctx, ctx.F, clo)
+    if rt is None:
+        ctx.fail(inst, site, 'sort comparator is neither a closure nor a crate function: %s' % fmt(clo), key=inst + '|cmp')
         return
-    rt = comparator_table(ctx, ctx.F, clo[1])
     good = False
     if rt is not None:
         if key_sort:
@@ -94,15 +111,15 @@ def check_node(ctx, b, tb, agg, site):
     if not good:
         ctx.fail(inst, site, 'sort comparator is not ascending order of element digests: %s' % (fmt(rt) if rt else '?'), key=inst + '|cmpform')
         return
-    if check_digest_formula(ctx, inst, site, subj, asrt, dig):
+    if check_digest_formula(ctx, inst, site, subj, asrt, dig, use=(b, bi) if bi is not None else None):
         ctx.ok(inst, site, 'assertions=sort_by(input, cmp(digest(a),digest(b))); digest=from_digests([digest(subject)]++map(digest, sorted))',
                sample=fmt(agg))
 
 
 def sort_comparator_ok(ctx, clo, key_sort=False):
-    rt = comparator_table(ctx, ctx.F, clo[1]) if isinstance(clo, tuple) and clo and clo[0] == 'closure' else None
+    rt = comparator_value(ctx, ctx.F, clo)
     if rt is None:
-        return False, 'comparator is not a closure'
+        return False, 'comparator is not a closure or crate function'
     if key_sort:
         x = m_digest(rt)
         return (x is not None and strip_sites(x) == ('param', 2)), fmt(rt)
@@ -143,32 +160,29 @@ def ordered_vector(ctx, body, t):
     return False, fmt(st)
 
 
-def check_digest_formula(ctx, inst, site, subj, asrt, dig):
+def check_digest_formula(ctx, inst, site, subj, asrt, dig, use=None):
     d = m_call(dig, name='from_digests', self_suffix='Digest')
     if d is None or len(d) != 1:
         ctx.fail(inst, site, 'node digest is not Digest::from_digests(..): %s' % fmt(dig), key=inst + '|fromdigests')
         return False
-    e = m_call(d[0], name='extend', kind='mut')
+    # the hashed list in sequence normal form: [one(digest(subject)), each(digest(e)) for e in the stored (sorted) vector]
     ok = False
-    why = ''
-    if e is not None and d[0][2] == 0 and len(e) == 2:
-        first, rest = e
-        if first[0] == 'list' and len(first[1]) == 1 and m_digest(first[1][0]) is not None and same(m_digest(first[1][0]), subj):
-            m = m_call(rest, name='map', trait='Iterator')
-            if m is not None and same(elem_source(m[0]), asrt) and m[1][0] == 'closure':
-                crt = comparator_table(ctx, ctx.F, m[1][1])
-                x = m_digest(crt) if crt else None
-                if x is not None and strip_sites(x) == ('param', 2):
-                    ok = True
-                else:
-                    why = 'mapped closure is not the element digest: %s' % (fmt(crt) if crt else '?')
-            else:
-                why = 'digest list is not extended by a map over the stored (sorted) assertion vector: %s' % fmt(rest)
-        else:
-            why = 'digest list does not start with exactly digest(subject): %s' % fmt(first)
+    body, use_block = (use if use else (None, None))
+    parts = seq_norm(d[0], body, use_block)
+    if parts is None:
+        why = 'digest list has an unrecognised construction: %s' % fmt(d[0])
+    elif len(parts) != 2 or parts[0][0] != 'one' or parts[1][0] != 'each':
+        why = 'digest list is not [digest(subject)] followed by one digest per stored assertion: %s' % [(k, fmt(v)) for k, v in parts]
     else:
-        # alternative accepted form: chain(once(digest(subject)), map(..)).collect()
-        why = 'digest list is not [digest(subject)] extended by the assertion digests: %s' % fmt(d[0])
+        x0 = m_digest(parts[0][1])
+        xe = m_digest(parts[1][1])
+        sa = strip_sites(detry(asrt))
+        if x0 is None or not same(x0, strip_sites(detry(subj))):
+            why = 'digest list does not start with exactly digest(subject): %s' % fmt(parts[0][1])
+        elif xe is None or xe[0] != 'elem' or strip_sites(elem_source(xe[1])) != strip_sites(elem_source(sa)):
+            why = 'digest list is not extended by the element digests of the stored (sorted) assertion vector: %s' % fmt(parts[1][1])
+        else:
+            ok = True
     if not ok:
         ctx.fail(inst, site, why, key=inst + '|formula')
         return False
@@ -192,7 +206,7 @@ def check(ctx):
         ctx.ok('C01.1', site, 'construction site of EnvelopeCase::%s' % v)
         fields = dict(zip(agg[4], agg[3]))
         if v == 'Node':
-            check_node(ctx, b, tb, agg, site)
+            check_node(ctx, b, tb, agg, site, bi)
         elif v == 'Leaf':
             inst = 'C01.2/leaf'
             a = m_call(fields['digest'], name='from_image', self_suffix='Digest')
@@ -418,3 +432,20 @@ def check_immutability(ctx, inst):
                          key='%s|mutself|%s' % (inst, it['path']))
     ctx.ok(inst + '/no_mut_self', '-', '%d methods on Envelope/EnvelopeCase/Assertion scanned, none takes &mut self' % nm, nontrivial=nm > 0)
     ctx.count('envelope_methods', nm)
+
+
+_check_inner = check
+
+
+def check(ctx):
+    _check_inner(ctx)
+    # C01.6: "the value never depends on the route": a node's digest is a function of the SET of its assertion digests, so the
+    # add path must refuse an element whose digest is already present (else the node hashes a digest twice, which the
+    # specification excludes) and the remove path must take out exactly the element with the target's digest (else
+    # add-then-remove is not the identity). These are the C04.3 / C04.5 instances, re-evaluated under this property.
+    from . import C04
+    from .C07 import Relabel
+    try:
+        C04.check(Relabel(ctx, 'C01.6', ['C04.3', 'C04.5']))
+    except Exception as e:
+        ctx.fail('C01.6', '-', 'route-independence obligations (C04.3/C04.5) could not be evaluated: %r' % e, key='C01.6|c04')
